@@ -834,65 +834,100 @@ func c20R12(c *Ctx) {
 			})
 		}
 	}
-	// (b) the root directory of the sub-workflow collection
-	collect := c.FnOpt("engine.collectSubworkflowCache")
-	if collect != nil {
-		for _, st := range c.CG().callers[collect] {
-			caller := st.Instr.Parent()
-			if caller == nil || caller == collect || c.excluded(caller) {
-				continue
+	// (b) the root directory the sub-workflow collection builds its caches on
+	inProgress := map[ssa.Value]bool{}
+	var isRoot func(d int) func(v ssa.Value) bool
+	isRoot = func(d int) func(v ssa.Value) bool {
+		return func(v ssa.Value) bool {
+			if call, ok := v.(*ssa.Call); ok && call.Common().IsInvoke() && call.Common().Method.Name() == "RootDir" {
+				return true
 			}
-			cc := callCommon(st.Instr)
-			if cc == nil {
-				continue
+			if d > 5 {
+				return false
 			}
-			for ai, a := range cc.Args {
-				if ai >= len(collect.Params) || collect.Params[ai].Type().String() != "string" {
-					continue
+			// a field of a collector object: everything stored into it
+			if f := loadedField(v); f != nil {
+				if inProgress[v] {
+					return true
 				}
-				n++
-				var isRoot func(d int) func(v ssa.Value) bool
-				isRoot = func(d int) func(v ssa.Value) bool {
-					return func(v ssa.Value) bool {
-						if call, ok := v.(*ssa.Call); ok && call.Common().IsInvoke() && call.Common().Method.Name() == "RootDir" {
-							return true
+				inProgress[v] = true
+				defer delete(inProgress, v)
+				nSt, okAll := 0, true
+				for _, fn2 := range c.RepoFns {
+					if c.excluded(fn2) {
+						continue
+					}
+					for _, vs := range c.fieldStoresIn(fn2, f) {
+						nSt++
+						if !passedUnchanged(vs.val, isRoot(d+1)) {
+							okAll = false
 						}
-						// a parameter that every caller fills with the root as it is (the exported SubworkflowCache passes
-						// its own parameter on)
-						p, ok := v.(*ssa.Parameter)
-						if !ok || d > 2 {
-							return false
-						}
-						f := p.Parent()
-						idx := -1
-						for k, fp := range f.Params {
-							if fp == p {
-								idx = k
-							}
-						}
-						sites := c.CG().callers[f]
-						nSites := 0
-						for _, s2 := range sites {
-							g := s2.Instr.Parent()
-							if g == nil || c.excluded(g) {
-								continue
-							}
-							cc2 := callCommon(s2.Instr)
-							if cc2 == nil || idx < 0 || idx >= len(cc2.Args) {
-								return false
-							}
-							nSites++
-							if !passedUnchanged(cc2.Args[idx], isRoot(d+1)) {
-								return false
-							}
-						}
-						return nSites > 0
 					}
 				}
-				okc := passedUnchanged(a, isRoot(0))
-				c.verdict(okc, rule, "root-dir@"+c.fnName(caller), c.instrPos(st.Instr), "the collection starts from the RootDir() of the caller's cache as it is", "the root directory handed to the sub-workflow collection is not the caller cache's RootDir() as it is: caches built on a differently spelled root are refused by the merge (`file caches have different root directory`), so whether a tree loads depends on how the context directory was reached")
+				return nSt > 0 && okAll
 			}
+			if fl, ok := v.(*ssa.Field); ok {
+				return passedUnchanged(fl.X, isRoot(d+1)) || isRoot(d+1)(ssa.Value(fl.X))
+			}
+			// a parameter that every caller fills with the root as it is (the exported SubworkflowCache passes its own
+			// parameter on; the recursion hands its own parameter on)
+			p, ok := v.(*ssa.Parameter)
+			if !ok {
+				return false
+			}
+			if inProgress[v] {
+				return true
+			}
+			inProgress[v] = true
+			defer delete(inProgress, v)
+			f := p.Parent()
+			idx := -1
+			for k, fp := range f.Params {
+				if fp == p {
+					idx = k
+				}
+			}
+			nSites := 0
+			for _, s2 := range c.CG().callers[f] {
+				g := s2.Instr.Parent()
+				if g == nil || c.excluded(g) {
+					continue
+				}
+				cc2 := callCommon(s2.Instr)
+				if cc2 == nil || idx < 0 || idx >= len(cc2.Args) {
+					return false
+				}
+				nSites++
+				a := cc2.Args[idx]
+				// a struct-valued receiver: its field is what matters, handled by the field case through loads
+				if !passedUnchanged(a, isRoot(d+1)) {
+					if _, isStruct := a.Type().Underlying().(*types.Struct); !isStruct {
+						return false
+					}
+				}
+			}
+			return nSites > 0
 		}
+	}
+	for _, fn := range c.RepoFns {
+		if c.excluded(fn) || pkgPathOf(fn) != repoModule {
+			continue
+		}
+		k := 0
+		eachInstr(fn, func(r instrRef) {
+			cc := callCommon(r.I)
+			if cc == nil || len(cc.Args) == 0 {
+				return
+			}
+			callee := cc.StaticCallee()
+			if callee == nil || funcSimpleName(callee) != "NewFileCacheUsingContext" {
+				return
+			}
+			n++
+			k++
+			okc := passedUnchanged(cc.Args[0], isRoot(0))
+			c.verdict(okc, rule, fmt.Sprintf("root-dir@%s#%d", c.fnName(fn), k), c.instrPos(r.I), "the sub-workflow caches are built on the RootDir() of the caller's cache as it is", "the root directory the sub-workflow caches are built on is not the caller cache's RootDir() as it is: caches on a differently spelled root (symlinks resolved, cleaned) are refused by the merge (`file caches have different root directory`), so whether a tree loads depends on how the context directory was reached")
+		})
 	}
 	c.minCount(rule, "unchanged hand-overs on the file path", n, 2)
 }
